@@ -349,6 +349,7 @@ const sizeBound = 60 * time.Second
 type sizesRec struct {
 	N       int `json:"n"`
 	Pattern int `json:"pattern"`
+	Local   int `json:"local"` // number of key IDs also requested for the local server (answered without the pool)
 }
 
 // sizeOutcome returns the scripted (direct, notary) outcomes of server number i.
@@ -441,7 +442,15 @@ func sizesReplay(raw json.RawMessage) hx.Result {
 			}
 		}
 	}
-	fetcher := &gmsl.DirectKeyFetcher{Client: client, IsLocalServerName: func(spec.ServerName) bool { return false }}
+	localName := spec.ServerName("local.c19.test")
+	localPub := spec.Base64Bytes(seedKey("local").Public().(ed25519.PublicKey))
+	for i := 0; i < rec.Local; i++ {
+		k := gmsl.PublicKeyLookupRequest{ServerName: localName, KeyID: gmsl.KeyID(fmt.Sprintf("ed25519:l%d", i))}
+		requests[k] = 1
+		want[k] = gmsl.PublicKeyLookupResult{VerifyKey: gmsl.VerifyKey{Key: localPub}, ExpiredTS: gmsl.PublicKeyNotExpired,
+			ValidUntilTS: spec.AsTimestamp(time.Unix(1<<37, 0))}
+	}
+	fetcher := &gmsl.DirectKeyFetcher{Client: client, IsLocalServerName: func(s spec.ServerName) bool { return s == localName }, LocalPublicKey: localPub}
 	type fetchResult struct {
 		res map[gmsl.PublicKeyLookupRequest]gmsl.PublicKeyLookupResult
 		err error
@@ -478,5 +487,5 @@ func sizesReplay(raw json.RawMessage) hx.Result {
 		}
 		return keysFail("result/"+class, "FetchKeys over %d distinct servers (%d succeed): result differs from the union of the per-server results: %s", rec.N, nSucc, d)
 	}
-	return hx.Result{OK: true, NT: fmt.Sprintf("sizes n=%d succ=%d", rec.N, nSucc), Extra: map[string]interface{}{"ms": took.Milliseconds()}}
+	return hx.Result{OK: true, NT: fmt.Sprintf("sizes n=%d succ=%d local=%d", rec.N, nSucc, rec.Local), Extra: map[string]interface{}{"ms": took.Milliseconds()}}
 }
